@@ -20,7 +20,7 @@ use vm_memory::{
 pub fn gerr(e: &GErr) -> Value {
     match e {
         GErr::InvalidGuestAddress(_) => json!({"k": "err", "e": "InvalidGuestAddress"}),
-        GErr::IOError(io) => json!({"k": "err", "e": "IOError", "kind": format!("{:?}", io.kind())}),
+        GErr::IOError(io) => json!({"k": "err", "e": "IOError", "io": format!("{:?}", io.kind())}),
         GErr::PartialBuffer { expected, completed } => {
             json!({"k": "err", "e": "PartialBuffer", "exp": expected, "done": completed})
         }
@@ -28,6 +28,89 @@ pub fn gerr(e: &GErr) -> Value {
         GErr::HostAddressNotAvailable => json!({"k": "err", "e": "HostAddressNotAvailable"}),
         GErr::CallbackOutOfRange => json!({"k": "err", "e": "CallbackOutOfRange"}),
         GErr::GuestAddressOverflow => json!({"k": "err", "e": "GuestAddressOverflow"}),
+    }
+}
+
+// ---------------------------------------------------------------------------------------------
+// scripted streams (C14): one script element per underlying call; an exhausted script is "full"
+// ---------------------------------------------------------------------------------------------
+#[derive(Clone, Debug)]
+pub enum Beh {
+    Full,
+    Short(usize),
+    Zero,
+    Eintr,
+    Err,
+}
+
+pub fn parse_script(v: &Value) -> Vec<Beh> {
+    v.as_array()
+        .expect("harness: script")
+        .iter()
+        .map(|e| match e["b"].as_str().expect("harness: script element") {
+            "full" => Beh::Full,
+            "short" => Beh::Short(e["k"].as_u64().expect("harness: short k") as usize),
+            "zero" => Beh::Zero,
+            "eintr" => Beh::Eintr,
+            "err" => Beh::Err,
+            b => panic!("harness: script behaviour {b}"),
+        })
+        .collect()
+}
+
+pub struct ScriptedReader {
+    pub script: std::collections::VecDeque<Beh>,
+    pub pos: usize, // bytes handed out so far
+    pub calls: usize,
+}
+
+pub struct ScriptedWriter {
+    pub script: std::collections::VecDeque<Beh>,
+    pub got: Vec<u8>,
+    pub calls: usize,
+}
+
+fn io_err(kind: std::io::ErrorKind) -> vm_memory::VolatileMemoryError {
+    vm_memory::VolatileMemoryError::IOError(std::io::Error::new(kind, "scripted"))
+}
+
+impl ReadVolatile for ScriptedReader {
+    fn read_volatile<B: vm_memory::bitmap::BitmapSlice>(
+        &mut self,
+        buf: &mut VolatileSlice<B>,
+    ) -> Result<usize, vm_memory::VolatileMemoryError> {
+        self.calls += 1;
+        let n = match self.script.pop_front().unwrap_or(Beh::Full) {
+            Beh::Full => buf.len(),
+            Beh::Short(k) => k.min(buf.len()),
+            Beh::Zero => 0,
+            Beh::Eintr => return Err(io_err(std::io::ErrorKind::Interrupted)),
+            Beh::Err => return Err(io_err(std::io::ErrorKind::Other)),
+        };
+        let data: Vec<u8> = (0..n).map(|j| ((self.pos + j) % 250 + 1) as u8).collect();
+        buf.copy_from(&data[..]);
+        self.pos += n;
+        Ok(n)
+    }
+}
+
+impl WriteVolatile for ScriptedWriter {
+    fn write_volatile<B: vm_memory::bitmap::BitmapSlice>(
+        &mut self,
+        buf: &VolatileSlice<B>,
+    ) -> Result<usize, vm_memory::VolatileMemoryError> {
+        self.calls += 1;
+        let n = match self.script.pop_front().unwrap_or(Beh::Full) {
+            Beh::Full => buf.len(),
+            Beh::Short(k) => k.min(buf.len()),
+            Beh::Zero => 0,
+            Beh::Eintr => return Err(io_err(std::io::ErrorKind::Interrupted)),
+            Beh::Err => return Err(io_err(std::io::ErrorKind::Other)),
+        };
+        let mut tmp = vec![0u8; n];
+        buf.copy_to(&mut tmp[..]);
+        self.got.extend_from_slice(&tmp);
+        Ok(n)
     }
 }
 
@@ -434,6 +517,43 @@ where
                 Ok(n) => json!({"k": "ok", "n": n, "data": sink}),
                 Err(e) => gerr(&e),
             }
+        }
+        // ---------------- scripted streams (C14) ----------------
+        "s_read_from" | "s_read_exact_from" | "rs_read_from" | "rs_read_exact_from" => {
+            let mut rd = ScriptedReader { script: parse_script(&line["a"]["script"]).into(), pos: 0, calls: 0 };
+            let mut v = match op {
+                "s_read_from" => match m.read_volatile_from(ga("addr"), &mut rd, gu("count")) {
+                    Ok(n) => json!({"k": "ok", "n": n}),
+                    Err(e) => gerr(&e),
+                },
+                "s_read_exact_from" => runit(m.read_exact_volatile_from(ga("addr"), &mut rd, gu("count"))),
+                "rs_read_from" => match reg().read_volatile_from(MemoryRegionAddress(g("addr")), &mut rd, gu("count")) {
+                    Ok(n) => json!({"k": "ok", "n": n}),
+                    Err(e) => gerr(&e),
+                },
+                _ => runit(reg().read_exact_volatile_from(MemoryRegionAddress(g("addr")), &mut rd, gu("count"))),
+            };
+            v["used"] = json!(rd.pos);
+            v["calls"] = json!(rd.calls);
+            v
+        }
+        "s_write_to" | "s_write_all_to" | "rs_write_to" | "rs_write_all_to" => {
+            let mut wr = ScriptedWriter { script: parse_script(&line["a"]["script"]).into(), got: Vec::new(), calls: 0 };
+            let mut v = match op {
+                "s_write_to" => match m.write_volatile_to(ga("addr"), &mut wr, gu("count")) {
+                    Ok(n) => json!({"k": "ok", "n": n}),
+                    Err(e) => gerr(&e),
+                },
+                "s_write_all_to" => runit(m.write_all_volatile_to(ga("addr"), &mut wr, gu("count"))),
+                "rs_write_to" => match reg().write_volatile_to(MemoryRegionAddress(g("addr")), &mut wr, gu("count")) {
+                    Ok(n) => json!({"k": "ok", "n": n}),
+                    Err(e) => gerr(&e),
+                },
+                _ => runit(reg().write_all_volatile_to(MemoryRegionAddress(g("addr")), &mut wr, gu("count"))),
+            };
+            v["data"] = json!(wr.got);
+            v["calls"] = json!(wr.calls);
+            v
         }
         _ => panic!("harness: unknown guest op {op}"),
     }
